@@ -270,4 +270,11 @@ class ChargingBase(VehicleState):
                 None,
             )
         else:
+            vehicle = sim.vehicles.get(self.vehicle_id)
+            mechatronics = env.mechatronics.get(vehicle.mechatronics_id) if vehicle else None
+            if vehicle is not None and mechatronics is not None and mechatronics.is_full(vehicle):
+                # plugged in with nothing to add: a no-op here lets the terminal condition
+                # move the vehicle on to ReserveBase at its next update
+                return None, sim
+
             return charge(sim, env, self.vehicle_id, station_id, self.charger_id)
